@@ -1,6 +1,9 @@
 SPECIFICATION Spec
 CONSTANTS
   CU = 4
+  Files = {"A", "b", "L1", "L2", "D/A", "D/b"}
+  Dirs = {"D"}
+  InD = {"D/A", "D/b"}
   Total = 6
   MaxLen = 9
   MaxTag = 3
